@@ -412,7 +412,7 @@ func checkTree(res *core.Result, in treeInput, idx int, verbose bool) {
 				if sn, ok := parseSentinel(s); ok && bad == "" {
 					res.Stat("sentinel_leaves_checked", 1)
 					if r := relation(x, sn, gdepth > 0); r != "" {
-						if gdepth >= 3 {
+						if gdepth >= 4 {
 							r += "#nested"
 						}
 						bad = fmt.Sprintf("%s|%s", r, s)
@@ -561,13 +561,13 @@ func decidedBy(x *inst, why string, user map[string]any) string {
 // (global.<table>.<key>...) shows up in a chart that is not below the chart/section that set it
 // (or, having leaked upwards, comes back down with an ancestor's precedence). Any wrong, non-missing
 // value at such a path gets this class; flat global keys and missing values keep precise classes.
-const nestedGlobalClass = "a value inside a table nested in global (global.<table>.<key>) is visible outside the subtree that set it (leak to parent / siblings)"
+const nestedGlobalClass = "a value inside a table nested two levels deep in global (global.<t1>.<t2>.<key>) is visible outside the subtree that set it (leak to parent / siblings)"
 
-// nestedGlobal: the path runs through `global` and at least two more keys.
+// nestedGlobal: the path runs through `global` and at least three more keys.
 func nestedGlobal(path string) bool {
 	parts := strings.Split(path, ".")
 	for i, p := range parts {
-		if p == "global" && len(parts)-i-1 >= 2 {
+		if p == "global" && len(parts)-i-1 >= 3 {
 			return true
 		}
 	}
